@@ -24,10 +24,10 @@ inline double singularDistance(const Shape& s, const Vec3& x) {
 }
 
 inline void implicitChecks(vh::Ctx& c, const Shape& s, vh::Rng& r, long idx, int nq) {
-    const std::string sh = s.name();
+    const std::string sh = s.keyName;
     if (!s.hasImplicit()) {
         c.setPhase("getImplicitFunction " + sh);
-        guarded(c, s, "getImplicitFunction", [&] { s.g->calcSurfaceValue(Vec3(0.1, 0.2, 0.3)); c.viol("nonsmooth-implicit-no-exception:" + sh, s.json()); });
+        guarded(c, s, "getImplicitFunction", [&] { s.g->calcSurfaceValue(Vec3(0.1, 0.2, 0.3)); c.viol("nonsmooth-implicit-no-exception@" + sh, s.json()); });
         return;
     }
     Vec3 focus = randBox(r, 3 * s.size); double L = 3 * s.size;
@@ -48,13 +48,13 @@ inline void implicitChecks(vh::Ctx& c, const Shape& s, vh::Rng& r, long idx, int
         auto W = [&, f, g]() { return Json::obj().set("shape", s.json()).set("point", jv(x)).set("region", Q.region).set("value", f).set("gradient", jv(g)); };
         bool fin = std::isfinite(f) && finite3(g) && finite3(un);
         for (int i = 0; i < 3; ++i) fin = fin && finite3(H(i));
-        if (!c.require("nan:" + sh + ":implicit", fin, W)) continue;
+        if (!c.require("nan@" + sh + ":implicit", fin, W)) continue;
         const double gn = g.norm(), Hn = H.norm();
         // sign and zero set
         LD iv = insideValue(s, V3(x));
         double ivScale = (s.kind == ELLIPSOID || s.kind == HEIGHTMAP) ? 1.0 : s.size;
-        if (region == 2) c.check("zero:" + sh + ":value-on-surface", std::fabs(f), 1e-11 * (gn * s.size + std::fabs(f)) + 1e-300, W);
-        else if (std::fabs((double)iv) > 1e-9 * ivScale) c.require("sign:" + sh + ":value-positive-inside:" + Q.region, (f > 0) == (iv > 0), W);
+        if (region == 2) c.check("zero@" + sh + ":value-on-surface", std::fabs(f), 1e-11 * (gn * s.size + std::fabs(f)) + 1e-300, W);
+        else if (std::fabs((double)iv) > 1e-9 * ivScale) c.require("sign@" + sh + ":value-positive-inside:" + Q.region, (f > 0) == (iv > 0), W);
         // gradient = FD of value, Hessian = FD of gradient (two step sizes)
         auto fv = [&](const Vec3& y) { return (double)s.g->calcSurfaceValue(y); };
         Vec3 g1, g2; Mat33 H1, H2;
@@ -67,17 +67,17 @@ inline void implicitChecks(vh::Ctx& c, const Shape& s, vh::Rng& r, long idx, int
         }
         const double tolG = 1e-7 * (gn + std::fabs(f) / s.size + 1e-300), tolH = 1e-7 * (Hn + gn / s.size + 1e-300);
         if ((g1 - g2).norm() > tolG / 10) c.skip("fd-gradient-unstable");
-        else c.check("fd:" + sh + ":gradient", (g - g2).norm(), tolG, W);
+        else c.check("fd@" + sh + ":gradient", (g - g2).norm(), tolG, W);
         if ((H1 - H2).norm() > tolH / 10) c.skip("fd-hessian-unstable");
-        else c.check("fd:" + sh + ":hessian", (H - H2).norm(), tolH, [&]() { return W().set("hessianRow0", jv(Vec3(H(0, 0), H(0, 1), H(0, 2)))).set("fdRow0", jv(Vec3(H2(0, 0), H2(0, 1), H2(0, 2)))); });
-        c.check("symmetric:" + sh + ":hessian", (H - ~H).norm(), 1e-13 * (Hn + 1e-300), W);
+        else c.check("fd@" + sh + ":hessian", (H - H2).norm(), tolH, [&]() { return W().set("hessianRow0", jv(Vec3(H(0, 0), H(0, 1), H(0, 2)))).set("fdRow0", jv(Vec3(H2(0, 0), H2(0, 1), H2(0, 2)))); });
+        c.check("symmetric@" + sh + ":hessian", (H - ~H).norm(), 1e-13 * (Hn + 1e-300), W);
         // unit normal = -gradient/|gradient|
-        if (gn > 1e-8 * (std::fabs(f) / s.size + 1e-300)) c.check("normal:" + sh + ":unit-normal-vs-gradient", (un + g / gn).norm(), 1e-12, W);
+        if (gn > 1e-8 * (std::fabs(f) / s.size + 1e-300)) c.check("normal@" + sh + ":unit-normal-vs-gradient", (un + g / gn).norm(), 1e-12, W);
         // the Function object route: same sign, derivatives consistent with its own value
         c.setPhase("implicit Function object " + cell);
         Vector xv(3); for (int i = 0; i < 3; ++i) xv[i] = x[i];
         double Fv = F.calcValue(xv);
-        if (region != 2 && std::fabs((double)iv) > 1e-9 * ivScale) c.require("sign:" + sh + ":function-positive-inside", (Fv > 0) == (iv > 0), W);
+        if (region != 2 && std::fabs((double)iv) > 1e-9 * ivScale) c.require("sign@" + sh + ":function-positive-inside", (Fv > 0) == (iv > 0), W);
         auto Fval = [&](const Vec3& y) { Vector t(3); for (int i = 0; i < 3; ++i) t[i] = y[i]; return (double)F.calcValue(t); };
         Vec3 Fg, Fg2; double Fhd[3], Fhd2[3], Fhdlib[3];
         for (int i = 0; i < 3; ++i) {
@@ -89,19 +89,19 @@ inline void implicitChecks(vh::Ctx& c, const Shape& s, vh::Rng& r, long idx, int
         double Fgn = Fg.norm();
         Vec3 Fg1; for (int i = 0; i < 3; ++i) Fg1[i] = fdAxis(Fval, x, i, h);
         double tolFG = 1e-7 * (Fgn + std::fabs(Fv) / s.size + 1e-300);
-        if ((Fg1 - Fg2).norm() <= tolFG / 10) c.check("fd:" + sh + ":function-first-derivative", (Fg - Fg2).norm(), tolFG, W);
+        if ((Fg1 - Fg2).norm() <= tolFG / 10) c.check("fd@" + sh + ":function-first-derivative", (Fg - Fg2).norm(), tolFG, W);
         double e2 = 0, st2 = 0, sc2 = 0;
         for (int i = 0; i < 3; ++i) { e2 = std::max(e2, std::fabs(Fhdlib[i] - Fhd2[i])); st2 = std::max(st2, std::fabs(Fhd[i] - Fhd2[i])); sc2 = std::max(sc2, std::fabs(Fhdlib[i])); }
         double tolFH = 1e-7 * (sc2 + Fgn / s.size + 1e-300);
-        if (st2 <= tolFH / 10) c.check("fd:" + sh + ":function-second-derivative", e2, tolFH, W);
+        if (st2 <= tolFH / 10) c.check("fd@" + sh + ":function-second-derivative", e2, tolFH, W);
         // both routes describe the same surface: gradients parallel
-        if (gn > 0 && Fgn > 0) c.check("normal:" + sh + ":function-gradient-parallel", (g / gn - Fg / Fgn).norm(), 1e-10, W);
+        if (gn > 0 && Fgn > 0) c.check("normal@" + sh + ":function-gradient-parallel", (g / gn - Fg / Fgn).norm(), 1e-10, W);
     }
 }
 
 // ------------------------------------------------------------------ curvature family at surface points
 inline void curvatureChecks(vh::Ctx& c, const Shape& s, vh::Rng& r, long idx, int nq) {
-    const std::string sh = s.name();
+    const std::string sh = s.keyName;
     if (!s.hasImplicit()) return;
     Vec3 focus = randBox(r, 3 * s.size); double L = 3 * s.size;
     for (int q = 0; q < nq; ++q) {
@@ -120,36 +120,36 @@ inline void curvatureChecks(vh::Ctx& c, const Shape& s, vh::Rng& r, long idx, in
         const double ks = std::fabs(e.kmax) + std::fabs(e.kmin) + 1 / s.size;
         auto W = [&, x, e]() { return Json::obj().set("shape", s.json()).set("point", jv(x)).set("kmax_from_hessian", e.kmax).set("kmin_from_hessian", e.kmin); };
         // harness normal vs library gradient direction
-        c.check("normal:" + sh + ":gradient-outward", (n - sp.n).norm(), 1e-9, W);
+        c.check("normal@" + sh + ":gradient-outward", (n - sp.n).norm(), 1e-9, W);
         double ak1, ak2;
-        if (analyticCurvature(s, x, ak1, ak2))
-            c.check("curvature:" + sh + ":hessian-vs-analytic", std::max(std::fabs(ak1 - e.kmax), std::fabs(ak2 - e.kmin)), 1e-9 * ks, [&]() { return W().set("analytic_kmax", ak1).set("analytic_kmin", ak2); });
+        if (analyticCurvature(s, x, ak1, ak2))   // compared through the symmetric functions (well conditioned at umbilics)
+            c.check("curvature@" + sh + ":hessian-vs-analytic", std::fabs((ak1 + ak2) - (e.kmax + e.kmin)) + std::fabs(ak1 * ak2 - e.kmax * e.kmin) / ks, 1e-9 * ks, [&]() { return W().set("analytic_kmax", ak1).set("analytic_kmin", ak2); });
         // calcCurvature (shape-specific) and calcSurfacePrincipalCurvatures (generic)
         for (int route = 0; route < 2; ++route) {
             const char* rn = route ? "principal-generic" : "calcCurvature";
             Vec2 k(NaN); Rotation Rr;
             Outcome o = guarded(c, s, rn, [&] { if (route) s.g->calcSurfacePrincipalCurvatures(x, k, Rr); else s.g->calcCurvature(x, k, Rr); });
             if (o != OK) continue;
-            c.cover(std::string("curvature:") + sh + ":" + rn);
+            c.cover(std::string("curvature@") + sh + ":" + rn);
             auto WK = [&, k]() { return W().set("route", rn).set("returned", jv(k)); };
             Mat33 Rm = Rr.asMat33();
             bool fin = std::isfinite(k[0]) && std::isfinite(k[1]); for (int i = 0; i < 3; ++i) fin = fin && finite3(Rm(i));
-            if (!c.require(std::string("nan:") + sh + ":" + rn, fin, WK)) continue;
-            c.check(std::string("curvature:") + sh + ":" + rn + "-values", std::max(std::fabs(k[0] - e.kmax), std::fabs(k[1] - e.kmin)), 1e-8 * ks, WK);
-            c.check(std::string("rotation:") + sh + ":" + rn + "-orthonormal", (~Rm * Rm - Mat33(1)).norm() + std::fabs(SimTK::det(Rm) - 1), 1e-10, WK);
+            if (!c.require(std::string("nan@") + sh + ":" + rn, fin, WK)) continue;
+            c.check(std::string("curvature@") + sh + ":" + rn + "-values", std::max(std::fabs(k[0] - e.kmax), std::fabs(k[1] - e.kmin)), 1e-8 * ks, WK);
+            c.check(std::string("rotation@") + sh + ":" + rn + "-orthonormal", (~Rm * Rm - Mat33(1)).norm() + std::fabs(SimTK::det(Rm) - 1), 1e-10, WK);
             Vec3 rx(Rm(0, 0), Rm(1, 0), Rm(2, 0)), rz(Rm(0, 2), Rm(1, 2), Rm(2, 2));
-            c.check(std::string("rotation:") + sh + ":" + rn + "-z-is-outward-normal", (rz - n).norm(), 1e-8, [&]() { return WK().set("z_axis", jv(rz)).set("outward_normal", jv(n)); });
+            c.check(std::string("rotation@") + sh + ":" + rn + "-z-is-outward-normal", (rz - n).norm(), 1e-8, [&]() { return WK().set("z_axis", jv(rz)).set("outward_normal", jv(n)); });
             if (e.kmax - e.kmin > 1e-5 * ks && (rz - n).norm() < 1e-6) {
                 // x axis must be the kmax direction (sign free)
                 double al = std::fabs(SimTK::dot(rx, e1));
-                c.check(std::string("rotation:") + sh + ":" + rn + "-x-is-kmax-direction", 1 - al, 1e-7 * ks / (e.kmax - e.kmin), [&]() { return WK().set("x_axis", jv(rx)).set("kmax_direction", jv(e1)); });
+                c.check(std::string("rotation@") + sh + ":" + rn + "-x-is-kmax-direction", 1 - al, 1e-7 * ks / (e.kmax - e.kmin), [&]() { return WK().set("x_axis", jv(rx)).set("kmax_direction", jv(e1)); });
             }
         }
         // Gaussian curvature
         Real Kg = NaN, Kg2 = NaN;
         if (guarded(c, s, "calcGaussianCurvature", [&] { Kg = s.g->calcGaussianCurvature(x); Kg2 = s.g->calcGaussianCurvature(g, H); }) == OK) {
             c.cover("gaussian:" + sh);
-            c.check("curvature:" + sh + ":gaussian", std::max(std::fabs(Kg - e.kmax * e.kmin), std::fabs(Kg2 - e.kmax * e.kmin)), 1e-8 * ks * ks, [&]() { return W().set("returned", Kg); });
+            c.check("curvature@" + sh + ":gaussian", std::max(std::fabs(Kg - e.kmax * e.kmin), std::fabs(Kg2 - e.kmax * e.kmin)), 1e-8 * ks * ks, [&]() { return W().set("returned", Kg); });
         }
         // Euler's formula for the curvature in an arbitrary tangent direction
         double th = r.uni(0, 2 * PI);
@@ -159,13 +159,13 @@ inline void curvatureChecks(vh::Ctx& c, const Shape& s, vh::Rng& r, long idx, in
         if (guarded(c, s, "calcSurfaceCurvatureInDirection", [&] { kd = s.g->calcSurfaceCurvatureInDirection(x, UnitVec3(t)); }) == OK) {
             c.cover("direction-curvature:" + sh);
             double expect = e.kmax * std::cos(th) * std::cos(th) + e.kmin * std::sin(th) * std::sin(th);
-            c.check("curvature:" + sh + ":in-direction-euler", std::fabs(kd - expect), 1e-8 * ks, [&]() { return W().set("direction", jv(t)).set("returned", kd).set("euler", expect); });
+            c.check("curvature@" + sh + ":in-direction-euler", std::fabs(kd - expect), 1e-8 * ks, [&]() { return W().set("direction", jv(t)).set("returned", kd).set("euler", expect); });
         }
         if (s.kind == HEIGHTMAP && s.interpolating) {
             // anchor: an interpolating surface passes through its samples
             int i = r.integer(0, s.gx.size() - 1), j = r.integer(0, s.gy.size() - 1);
             double z = s.surf->calcValue(Vec2(s.gx[i], s.gy[j]));
-            c.check("zero:heightmap:passes-through-samples", std::fabs(s.g->calcSurfaceValue(Vec3(s.gx[i], s.gy[j], s.gf(i, j)))) + std::fabs(z - s.gf(i, j)), 1e-9 * s.size, W);
+            c.check("zero@heightmap:passes-through-samples", std::fabs(s.g->calcSurfaceValue(Vec3(s.gx[i], s.gy[j], s.gf(i, j)))) + std::fabs(z - s.gf(i, j)), 1e-9 * s.size, W);
         }
     }
 }
@@ -190,13 +190,14 @@ inline RayTruth quadricRay(LD A, LD B, LD C, LD scaleC) {
 }
 
 inline void rayChecks(vh::Ctx& c, const Shape& s, vh::Rng& r, long idx, int nq) {
-    const std::string sh = s.name();
+    const std::string sh = s.keyName;
     Vec3 focus = randBox(r, 2 * s.size); double L = 3 * s.size;
     for (int q = 0; q < nq; ++q) {
         int cls = (int)((idx / NKIND + q) % 7);
         static const char* CN[7] = {"outside-toward", "outside-away", "inside", "on-surface", "far", "outside-offset", "special"};
         SurfPt a = randSurf(s, r, focus, L), b = randSurf(s, r, focus, L);
-        Vec3 target = a.p + (s.mesh.nf() ? s.mesh.center - a.p : -a.n * s.size) * r.uni(0.01, 0.6);
+        Vec3 inward = s.mesh.nf() ? Vec3(s.mesh.center - a.p) : Vec3(a.n * (-s.size));
+        Vec3 target = a.p + inward * r.uni(0.01, 0.6);
         if (s.kind == HALFSPACE || s.kind == HEIGHTMAP) target = a.p;
         Vec3 o, d;
         switch (cls) {
@@ -226,11 +227,11 @@ inline void rayChecks(vh::Ctx& c, const Shape& s, vh::Rng& r, long idx, int nq) 
         auto W = [&, o, d, hitA, distA]() { return Json::obj().set("shape", s.json()).set("origin", jv(o)).set("direction", jv(d)).set("class", CN[cls]).set("hit", hitA).set("distance", distA); };
         if (s.kind == HEIGHTMAP) {
             // SmoothHeightMap::intersectsRay is "assert(false); return true": reports a hit without writing outputs
-            if (hitA && distA == -7.25 && distB == -3.5) c.viol("unimplemented-silent:heightmap:intersectsRay", W().set("note", "returns true without writing distance/normal"));
+            if (hitA && distA == -7.25 && distB == -3.5) c.viol("unimplemented-silent@heightmap:intersectsRay", W().set("note", "returns true without writing distance/normal"));
             else c.obs("heightmap-ray-wrote-output");
             continue;
         }
-        c.require("deterministic:" + sh + ":ray", hitA == hitB && (!hitA || distA == distB || (distA != distA && distB != distB)), W);
+        c.require("deterministic@" + sh + ":ray", hitA == hitB && (!hitA || distA == distB || (distA != distA && distB != distB)), W);
         // harness truth
         RayTruth T;
         V3 O(o), D(d);
@@ -256,29 +257,29 @@ inline void rayChecks(vh::Ctx& c, const Shape& s, vh::Rng& r, long idx, int nq) 
         }
         if (!T.known) continue;
         if (T.grazing) { c.skip("ray-grazing"); continue; }
-        if (hitA && !std::isfinite(distA)) { c.viol("nan:" + sh + ":ray-distance:" + CN[cls], W().set("expected_hit", T.hit)); continue; }
+        if (hitA && !std::isfinite(distA)) { c.viol("nan@" + sh + ":ray-distance:" + CN[cls], W().set("expected_hit", T.hit)); continue; }
         if (T.onSurface) {
             // origin on the surface: the hit at t=0 and the next crossing are both acceptable answers
             if (hitA) {
                 bool okd = std::fabs(distA) <= 1e-7 * sc || (T.hit && std::fabs(distA - (double)T.t) <= 1e-7 * sc) || (T.tAlt >= 0 && std::fabs(distA - (double)T.tAlt) <= 1e-7 * sc);
-                c.require("first-hit:" + sh + ":origin-on-surface", okd, W);
+                c.require("first-hit@" + sh + ":origin-on-surface", okd, W);
             } else c.obs("ray-from-surface-reported-miss");
             continue;
         }
-        if (!c.require("hit-or-miss:" + sh + ":" + CN[cls], hitA == T.hit, [&]() { return W().set("expected_hit", T.hit).set("expected_distance", (double)T.t); })) continue;
+        if (!c.require("hit-or-miss@" + sh + ":" + CN[cls], hitA == T.hit, [&]() { return W().set("expected_hit", T.hit).set("expected_distance", (double)T.t); })) continue;
         if (!hitA) {
-            c.require("miss-leaves-outputs:" + sh, distA == -7.25 && distB == -3.5, W);
+            c.require("miss-leaves-outputs@" + sh, distA == -7.25 && distB == -3.5, W);
             continue;
         }
         double tolT = (s.kind == ELLIPSOID ? 1e-9 : 1e-10) * (sc + std::fabs((double)T.t));
-        c.check("first-hit:" + sh + ":distance:" + CN[cls], std::fabs(distA - (double)T.t), tolT, [&]() { return W().set("expected_distance", (double)T.t); });
-        c.require("first-hit:" + sh + ":distance-nonnegative", distA >= 0, W);
+        c.check("first-hit@" + sh + ":distance:" + CN[cls], std::fabs(distA - (double)T.t), tolT, [&]() { return W().set("expected_distance", (double)T.t); });
+        c.require("first-hit@" + sh + ":distance-nonnegative", distA >= 0, W);
         Vec3 hp = o + distA * d;
         LD ds = 0;
-        if (exactDistance(s, V3(hp), ds)) c.check("onsurface:" + sh + ":ray-hit-point", (double)ds, 1e-9 * (sc + distA), W);
+        if (exactDistance(s, V3(hp), ds)) c.check("onsurface@" + sh + ":ray-hit-point", (double)ds, 1e-9 * (sc + distA), W);
         Vec3 n(nA);
-        if (c.require("nan:" + sh + ":ray-normal", finite3(n), W)) {
-            c.check("unit:" + sh + ":ray-normal", std::fabs(n.norm() - 1), 1e-12, W);
+        if (c.require("nan@" + sh + ":ray-normal", finite3(n), W)) {
+            c.check("unit@" + sh + ":ray-normal", std::fabs(n.norm() - 1), 1e-12, W);
             Vec3 an(NaN);
             switch (s.kind) {
             case HALFSPACE: an = Vec3(-1, 0, 0); break;
@@ -288,7 +289,7 @@ inline void rayChecks(vh::Ctx& c, const Shape& s, vh::Rng& r, long idx, int nq) 
             case MESH: { BfRay br = bfRay(s.mesh, O, D, 1e-7L); V3 A = s.mesh.vert(br.face, 0), B = s.mesh.vert(br.face, 1), C = s.mesh.vert(br.face, 2); V3 fn = cross(B - A, C - A); an = toVec3((1 / norm(fn)) * fn); } break;
             default: break;
             }
-            if (finite3(an)) c.check("normal:" + sh + ":ray-hit-normal", (n - an).norm(), 1e-8, W);
+            if (finite3(an)) c.check("normal@" + sh + ":ray-hit-normal", (n - an).norm(), 1e-8, W);
         }
     }
 }
